@@ -41,6 +41,7 @@ type c20lisCase struct {
 func TestC20_Listeners(t *testing.T) {
 	ev.Rule(c20, "listeners: 1..8 goroutines register OnClosed / Context().OnDisconnected listeners (and unsubscribe a drawn subset) on the client-side or server-side connection object while the connection is shut down by client Close, by the peer (server-side close / raw socket close) at a drawn moment; oracle after quiescence (checked twice, 100 ms apart): ok=true and not unsubscribed => exactly one call, made after Closed() is set; ok=false => never called; unsubscribed before the close was initiated => never called; unsubscribed concurrently => 0 or 1 calls; non-trivial = >=1 registration overlapped the shutdown (registrations both before and after the close in one goroutine); distinct by (config, outcome vector) hash")
 	ev.Check(t, c20, func(rt *rapid.T) {
+		defer drawSched(rt).install()() // seeded yields at the library's schedule points
 		g := rapid.IntRange(1, 8).Draw(rt, "registrars")
 		per := rapid.IntRange(1, 60).Draw(rt, "per")
 		closeBy := []string{"client-close", "server-conn-close", "raw-socket-close"}[rapid.IntRange(0, 2).Draw(rt, "closeby")]
@@ -257,6 +258,7 @@ type c20hCase struct {
 func TestC20_Handlers(t *testing.T) {
 	ev.Rule(c20, "handlers: a raw wire-level peer opens channels by single open frames, open+close batches, opens with and without payload and duplicate ids, then ends them by close frames or by dropping the connection; handler behaviours are drawn from {return at once, block on its context, read to the end}; oracle: exactly one handler invocation per accepted open (keyed by id), a duplicate open never starts a second handler and ends the connection, the handler context is not cancelled while the channel is live and is cancelled within 10 s after the channel ends from either side or the connection is lost; non-trivial = script contains an open+close batch, a duplicate id or a connection drop with live handlers")
 	ev.Check(t, c20, func(rt *rapid.T) {
+		defer drawSched(rt).install()() // seeded yields at the library's schedule points
 		type hrec struct {
 			calls     atomic.Int32
 			behaviour int
